@@ -32,19 +32,52 @@ type scenario struct {
 	// cacheFromBase pre-populates the dedup cache with the base entries.
 	cacheFromBase bool
 	noFinal       bool
+	// extra actors: further Log instances holding the same key on the same
+	// stores (C06). Actor 0 is the default instance driven by rounds/subs.
+	actors []actorSpec
+	// cacheLoss: the dedup cache does not survive a restart (C07).
+	cacheLoss bool
+	// legacyCache: the base entries are only in a legacy 128-bit cache table.
+	legacyCache bool
+}
+
+type actorSpec struct {
+	name   string
+	rounds [][]string
+	// loadInScenario: the instance's LoadLog is part of the explored schedule
+	// (it may run while another instance is mid-round); otherwise it loads from
+	// the base state before the scenario starts.
+	loadInScenario bool
 }
 
 type exec struct {
-	sc   *scenario
-	w    *world
-	s    *verifmc.Sched
-	cur  *instance
-	rows []cacheRow
-	// restarts counts instance epochs.
+	sc  *scenario
+	w   *world
+	s   *verifmc.Sched
+	act []*actor
+	// cur, rows, restarts, gaveUp mirror actor 0 (the default instance).
+	cur      *instance
+	rows     []cacheRow
 	restarts int
 	gaveUp   bool
 	acked    map[string]bool
 	log      []string
+}
+
+// actor is one server process lineage (an instance and its restarts).
+type actor struct {
+	x        *exec
+	id       int
+	name     string
+	spec     actorSpec
+	cur      *instance
+	rows     []cacheRow
+	restarts int
+	gaveUp   bool
+	// lostCAS is set when the actor's lock Replace was refused because another
+	// instance had extended the checkpoint (C06).
+	lostCAS bool
+	dead    bool
 }
 
 func (x *exec) logf(format string, a ...any) {
@@ -53,14 +86,27 @@ func (x *exec) logf(format string, a ...any) {
 	x.w.mu.Unlock()
 }
 
-// boot (re)starts the instance: LoadLog on fresh handles. It retries while the
-// failure can be blamed on an injected deviation; a failure without one is a
-// C03 violation (a restart must load).
-func (x *exec) boot(quiet bool) *instance {
+// boot (re)starts the actor's instance: LoadLog on fresh handles. It retries
+// while the failure can be blamed on an injected deviation; a failure without
+// one is a C03 violation (a restart must load) unless other instances are
+// racing (C06 scenarios judge start-up separately).
+func (a *actor) boot(quiet bool) *instance {
+	x := a.x
 	for attempt := 0; attempt < 6; attempt++ {
-		x.restarts++
-		in := x.w.newInstance("L", x.restarts, x.rows, quiet)
-		x.cur = in
+		a.restarts++
+		rows := a.rows
+		if x.sc.cacheLoss && a.restarts > 1 {
+			rows = nil
+			x.w.mon.cacheEpoch++
+		}
+		in := x.w.newInstance(a.name, a.restarts, rows, quiet)
+		if x.sc.legacyCache {
+			in.addLegacyCache(x.w.mon.base)
+		}
+		a.cur = in
+		if a.id == 0 {
+			x.cur = in
+		}
 		usedBefore := x.s.Used
 		l, err := LoadLog(in.ctx, in.cfg)
 		if err == nil && !in.crashed.Load() {
@@ -71,32 +117,39 @@ func (x *exec) boot(quiet bool) *instance {
 			l.CloseCache()
 		}
 		deviated := x.s.Used != usedBefore || in.crashed.Load()
-		x.logf("LoadLog epoch %d failed: %v (deviated=%v)", x.restarts, err, deviated)
+		x.logf("%s: LoadLog epoch %d failed: %v (deviated=%v)", a.name, a.restarts, err, deviated)
 		if !in.crashed.Load() {
-			x.rows = in.cacheRows()
+			a.rows = in.cacheRows()
 			in.crash()
 		}
 		if !deviated {
-			if !x.sc.opt.clock {
+			if !x.sc.opt.clock && len(x.act) == 1 {
 				x.w.violate("C03", "restart with the same configuration does not load: %v", err)
 			}
-			x.gaveUp = true
+			a.gaveUp = true
 			return nil
 		}
 	}
-	x.gaveUp = true
+	a.gaveUp = true
 	return nil
 }
 
 func (x *exec) moves() []verifmc.Move {
-	in := x.cur
-	if in == nil || !x.sc.opt.crashes || in.crashed.Load() || in.bh.Quiet {
+	if !x.sc.opt.crashes {
 		return nil
 	}
-	return []verifmc.Move{{Label: "crash " + in.name, Cost: 1, Do: func() {
-		x.rows = in.crash()
-		x.logf("crash of epoch %d", in.epoch)
-	}}}
+	var ms []verifmc.Move
+	for _, a := range x.act {
+		in := a.cur
+		if in == nil || in.crashed.Load() || in.bh.Quiet {
+			continue
+		}
+		ms = append(ms, verifmc.Move{Label: "crash " + a.name, Cost: 1, Do: func() {
+			a.rows = in.crash()
+			x.logf("crash of %s epoch %d", a.name, in.epoch)
+		}})
+	}
+	return ms
 }
 
 type pend struct {
@@ -106,57 +159,85 @@ type pend struct {
 	src  string
 }
 
-func (x *exec) driver() {
-	in := x.boot(true)
-	if in == nil {
-		return
+func (a *actor) run() {
+	x := a.x
+	var in *instance
+	if a.spec.loadInScenario {
+		if in = a.boot(false); in == nil {
+			return
+		}
+	} else {
+		in = a.cur // booted quietly before the scenario started
+		if in == nil {
+			return
+		}
+		in.bh.Quiet, in.lh.Quiet = false, false
 	}
-	// The first load is fault-free (it is not part of the scenario); from now on
-	// operations are scheduling points with fault choices.
-	in.bh.Quiet, in.lh.Quiet = false, false
 	var backlog []string
-	for r := 0; r < len(x.sc.rounds); r++ {
+	for r := 0; r < len(a.spec.rounds); r++ {
+		if a.dead {
+			return
+		}
 		if in.crashed.Load() {
-			if in = x.boot(false); in == nil {
+			if in = a.boot(false); in == nil {
 				return
 			}
 		}
-		specs := append(append([]string{}, backlog...), x.sc.rounds[r]...)
+		specs := append(append([]string{}, backlog...), a.spec.rounds[r]...)
 		backlog = nil
 		var ps []pend
 		for _, spec := range specs {
 			e := mkEntry(spec)
 			f, src := in.log.addLeafToPool(in.ctx, e, false)
+			x.w.mon.admitted(spec, e, src)
 			ps = append(ps, pend{spec, e, f, src})
 		}
 		err := in.log.sequence(in.ctx)
-		x.logf("round %d on epoch %d: %v", r, in.epoch, err)
+		x.logf("%s: round %d on epoch %d: %v", a.name, r, in.epoch, err)
+		acks := 0
 		for _, p := range ps {
-			x.collect(in, p.spec, p.e, p.f, p.src)
+			if x.collect(in, p.spec, p.e, p.f, p.src) {
+				acks++
+			}
 			if x.sc.resubmit && !x.acked[p.spec] {
 				backlog = append(backlog, p.spec)
 			}
 		}
+		if in.lh.SawCASMismatch() && !in.crashed.Load() {
+			// Another instance extended the checkpoint first (C06).
+			a.lostCAS = true
+			if err == nil || !errors.Is(err, errFatal) {
+				x.w.violate("C06", "instance %s lost the compare-and-swap but its round returned %v instead of a fatal error", a.name, err)
+			}
+			if acks > 0 {
+				x.w.violate("C06", "instance %s lost the compare-and-swap but acknowledged %d entries of that round", a.name, acks)
+			}
+		}
 		if err != nil && !in.crashed.Load() {
-			// Fatal sequencing error: the real process exits and is restarted.
-			x.rows = in.cacheRows()
+			// Fatal sequencing error: the real process exits.
+			a.rows = in.cacheRows()
 			in.crash()
+			if len(x.act) > 1 {
+				// With competing instances a restart is an operator decision, not
+				// part of the scenario: the loser stays down.
+				a.dead = true
+			}
 		}
 	}
 }
 
 // collect waits for one submission's outcome and, on success, records the
 // acknowledgement with the storage snapshot of that instant.
-func (x *exec) collect(in *instance, spec string, e *PendingLogEntry, f waitEntryFunc, src string) {
+func (x *exec) collect(in *instance, spec string, e *PendingLogEntry, f waitEntryFunc, src string) bool {
 	le, err := f(in.ctx)
 	if err != nil {
 		x.logf("  %s (%s): %v", spec, src, err)
-		return
+		return false
 	}
 	if in.crashed.Load() {
 		// The process died before the response left: not an acknowledgement.
 		x.logf("  %s: answer after crash ignored", spec)
-		return
+		return false
 	}
 	snap := x.w.store.Snapshot()
 	x.w.mu.Lock()
@@ -164,31 +245,37 @@ func (x *exec) collect(in *instance, spec string, e *PendingLogEntry, f waitEntr
 	x.w.mu.Unlock()
 	x.w.mon.recordAck(e, le.LeafIndex, le.Timestamp, src, snap)
 	x.logf("  %s (%s): ack idx=%d ts=%d", spec, src, le.LeafIndex, le.Timestamp)
+	return true
 }
 
 func (x *exec) submitter(id int, specs []string) {
 	for _, spec := range specs {
 		x.s.Point("submit " + spec)
-		in := x.cur
+		in := x.act[0].cur
 		if in == nil || in.log == nil || in.crashed.Load() {
 			return
 		}
 		e := mkEntry(spec)
 		f, src := in.log.addLeafToPool(in.ctx, e, false)
+		x.w.mon.admitted(spec, e, src)
 		x.s.Observe("src=" + src)
 		x.collect(in, spec, e, f, src)
 	}
 }
 
 // finalChecks: fault-free restart and audit (C01 final audit, C02 permanence,
-// C03 recoverability).
+// C03 recoverability, C07 leaf/admission correspondence).
 func (x *exec) finalChecks() {
 	w := x.w
-	if x.cur != nil && !x.cur.crashed.Load() {
-		x.rows = x.cur.cacheRows()
-		x.cur.crash()
+	var rows []cacheRow
+	for _, a := range x.act {
+		if a.cur != nil && !a.cur.crashed.Load() {
+			a.rows = a.cur.cacheRows()
+			a.cur.crash()
+		}
 	}
-	in := w.newInstance("final", 0, x.rows, true)
+	rows = x.act[0].rows
+	in := w.newInstance("final", 0, rows, true)
 	l, err := LoadLog(in.ctx, in.cfg)
 	if err != nil {
 		if !x.sc.opt.clock {
@@ -208,7 +295,8 @@ func (x *exec) finalChecks() {
 	}
 	// The log keeps sequencing.
 	e := mkEntry("zz-final")
-	f, _ := l.addLeafToPool(in.ctx, e, false)
+	f, src := l.addLeafToPool(in.ctx, e, false)
+	w.mon.admitted("zz-final", e, src)
 	if err := l.sequence(in.ctx); err != nil {
 		if !x.sc.opt.clock {
 			w.violate("C03", "log cannot sequence after recovery: %v", err)
@@ -250,7 +338,6 @@ func (x *exec) finalChecks() {
 		w.violate("C04", "final published tree unreadable: %v", err)
 		return
 	}
-	_ = leaves
 	for _, c := range w.mon.committed {
 		if c.N > int64(len(hs)) {
 			w.violate("C01", "a checkpoint of size %d was committed but the final tree has only %d leaves", c.N, len(hs))
@@ -267,6 +354,7 @@ func (x *exec) finalChecks() {
 			}
 		}
 	}
+	w.mon.checkAdmissionsLocked(leaves)
 }
 
 func (x *exec) outcome() string {
@@ -279,7 +367,10 @@ func (x *exec) outcome() string {
 	if v, ok := w.store.Get("checkpoint"); ok {
 		b.Write(canonCheckpoint(v))
 	}
-	fmt.Fprintf(&b, " restarts=%d gaveup=%v acks=", x.restarts, x.gaveUp)
+	for _, a := range x.act {
+		fmt.Fprintf(&b, " %s:restarts=%d gaveup=%v lost=%v", a.name, a.restarts, a.gaveUp, a.lostCAS)
+	}
+	b.WriteString(" acks=")
 	var as []string
 	for _, a := range w.mon.acks {
 		as = append(as, fmt.Sprintf("%s@%d", a.key, a.idx))
@@ -300,11 +391,16 @@ func runExec(t *testing.T, sc *scenario, prefix []int) *verifmc.ExecResult {
 		w := newWorld(s, base, sc.opt)
 		w.mon.checkC04 = sc.checkC04
 		x := &exec{sc: sc, w: w, s: s, acked: map[string]bool{}}
-		if sc.cacheFromBase {
-			for i, e := range base.pending {
-				h := computeCacheHash(e.Certificate, e.IsPrecert, e.IssuerKeyHash)
-				x.rows = append(x.rows, cacheRow{h[:], base.entries[i].Timestamp, base.entries[i].Index})
+		specs := append([]actorSpec{{name: "L", rounds: sc.rounds}}, sc.actors...)
+		for i, sp := range specs {
+			a := &actor{x: x, id: i, name: sp.name, spec: sp}
+			if sc.cacheFromBase && !sc.legacyCache {
+				for i, e := range base.pending {
+					h := computeCacheHash(e.Certificate, e.IsPrecert, e.IssuerKeyHash)
+					a.rows = append(a.rows, cacheRow{h[:], base.entries[i].Timestamp, base.entries[i].Index})
+				}
 			}
+			x.act = append(x.act, a)
 		}
 		s.Moves = x.moves
 		verifmc.Cur = s
@@ -321,31 +417,36 @@ func runExec(t *testing.T, sc *scenario, prefix []int) *verifmc.ExecResult {
 				}
 			}
 		}()
-		s.Go("seq", x.driver)
+		// Instances that are up before the scenario starts load fault-free,
+		// outside the explored schedule (Points are no-ops for quiet handles).
+		for _, a := range x.act {
+			if !a.spec.loadInScenario {
+				if a.boot(true) == nil {
+					panic(verifmc.EngineError{Msg: "initial LoadLog of " + a.name + " failed"})
+				}
+			}
+		}
+		for _, a := range x.act {
+			s.Go(a.name, a.run)
+		}
 		for i, specs := range sc.subs {
 			s.Go(fmt.Sprintf("sub%d", i), func() { x.submitter(i, specs) })
 		}
 		s.Run()
-		stuck := s.Stuck
 		s.Drain()
-		for _, in := range w.insts {
-			if in != x.cur {
-				in.cancel()
-			}
-		}
 		// Submitters still waiting on a pool that will never be sequenced within
 		// the horizon are released through their context.
-		if x.cur != nil {
-			x.cur.cancel()
+		for _, in := range w.insts {
+			in.cancel()
 		}
 		synctest.Wait()
 		if pe := s.PanicErr(); pe != nil {
 			if ee, ok := pe.(verifmc.EngineError); ok {
 				panic(ee)
 			}
-			w.violate(os.Getenv("VERIF_PROPERTY"), "panic in the code under test: %v", pe)
+			w.violate(os.Getenv("VERIF_PROPERTY"), "panic in the code under test: %v\n%s", pe, s.PanicStack())
 		}
-		_ = stuck
+		x.restarts, x.gaveUp = x.act[0].restarts, x.act[0].gaveUp
 		if !sc.noFinal {
 			x.finalChecks()
 		}
@@ -362,7 +463,9 @@ func runExec(t *testing.T, sc *scenario, prefix []int) *verifmc.ExecResult {
 	return res
 }
 
-var baseOverride = map[string]*baseTree{}
+// propertyExtras are non-scheduler enumerations that belong to a property's
+// check (run by shard 0, merged into the same result file).
+var propertyExtras = map[string]func(t *testing.T, out *verifmc.ShardResult){}
 
 func getBaseFor(sc *scenario) *baseTree { return getBase(sc.base) }
 
@@ -391,6 +494,9 @@ func runProperty(t *testing.T, prop string, scenarios []*scenario, props ...stri
 		rf, err := verifmc.LoadReplay(rp)
 		if err != nil {
 			t.Fatal(err)
+		}
+		if extra := propertyExtras[prop]; extra != nil && strings.HasPrefix(rf.Scenario, "extra/") {
+			extra(t, out)
 		}
 		for _, sc := range scenarios {
 			if sc.name != rf.Scenario {
@@ -439,6 +545,9 @@ func runProperty(t *testing.T, prop string, scenarios []*scenario, props ...stri
 	if f := os.Getenv("VERIF_INFLIGHT"); f != "" {
 		os.Remove(f)
 	}
+	if extra := propertyExtras[prop]; extra != nil && shard == 0 {
+		extra(t, out)
+	}
 	out.WallS = time.Since(start).Seconds()
 	if err := verifmc.WriteShardResult(out); err != nil {
 		t.Fatal(err)
@@ -457,9 +566,15 @@ func totalExec(r *verifmc.ShardResult) int {
 
 func filterProps(x *verifmc.ExecResult, props []string) *verifmc.ExecResult {
 	var vs []verifmc.Violation
+	// props[0] is the property being checked; the oracles of the other listed
+	// properties are part of its statement (e.g. C06: history stays append-only
+	// and storage complete) and are reported under its id.
 	for _, v := range x.Violations {
 		for _, p := range props {
 			if v.Property == p {
+				if p != props[0] {
+					v = verifmc.Violation{Property: props[0], Msg: "[" + p + " oracle] " + v.Msg}
+				}
 				vs = append(vs, v)
 			}
 		}
